@@ -4,7 +4,7 @@ cd "$(dirname "$0")/.."
 python3 - <<'PY' > /tmp/revert_plan.txt
 import json
 d=json.load(open('known_findings.json'))
-m={'F-R1':'F-R1','F-R2R3':'F-R23','F-N7':'F-N7','F-N234-8':'F-N234-8','F-N6':'F-N6','F-N9':'F-N9','F-S1':'F-S1','F-S2-S7':'F-S2-S7','F-S6':'F-S6','F-S3-S8':'F-S3-S8','F-S4-S9':'F-S4-S9','F-E1':'F-E1','F-E2':'F-E2','F-E3':'F-E3','F-E4':'F-E4','F-L1':'F-L1','F-Q1':'F-Q1','F-E5':'F-E5'}
+m={'F-R1':'F-R1','F-R2R3':'F-R23','F-N7':'F-N7','F-N234-8':'F-N234-8','F-N6':'F-N6','F-N9':'F-N9','F-S1':'F-S1','F-S2-S7':'F-S2-S7','F-S6':'F-S6','F-S3-S8':'F-S3-S8','F-S4-S9':'F-S4-S9','F-E1':'F-E1','F-E2':'F-E2','F-E3':'F-E3','F-E4':'F-E4','F-L1':'F-L1','F-Q1':'F-Q1','F-E5':'F-E5','F-Q2':'F-Q2'}
 for e in d['findings']:
     if e['status']!='fixed': continue
     print(m[e['id']], e['properties'][0])
